@@ -50,7 +50,10 @@ var (
 
 // hbRelease / hbAcquire are deliberately NOT norace: they give the race detector the edge
 // "arming a timer happens-before its firing", exactly what the real runtime provides.
-func hbRelease(p *uint32) { atomic.StoreUint32(p, 1) }
+//
+// hbRelease is a read-modify-write: the race detector treats it as acquire+release, so successive
+// releases on one word accumulate (a plain store would replace the earlier releaser's clock).
+func hbRelease(p *uint32) { atomic.AddUint32(p, 1) }
 func hbAcquire(p *uint32) { atomic.LoadUint32(p) }
 
 // TimeNow replaces time.Now.
@@ -121,7 +124,7 @@ func advanceToNextEvent() bool {
 			next = timers[i].fireAt
 		}
 	}
-	for i := 0; i < MaxTasks; i++ {
+	for i := 0; i < hiSlot; i++ {
 		if tasks[i].alive && tasks[i].state == tsSleeping && (next < 0 || tasks[i].wakeAt < next) {
 			next = tasks[i].wakeAt
 		}
@@ -156,13 +159,18 @@ func fireDue(t *task) {
 	me := getg()
 	var myR int
 	found := false
-	for i := 0; i < MaxTasks; i++ {
-		if tasks[i].alive && tasks[i].g == me {
-			backW, myR, found = tasks[i].wfd, tasks[i].rfd, true
+	for pass := 0; pass < 2 && !found; pass++ {
+		// the caller may be a task that has just finished (it still executes the scheduling function);
+		// prefer a live slot, a stale slot of a finished task can carry a recycled goroutine identity
+		for i := 0; i < hiSlot; i++ {
+			if tasks[i].alive && tasks[i].g == me && (pass == 1 || tasks[i].state != tsDone) {
+				backW, myR, found = tasks[i].wfd, tasks[i].rfd, true
+				break
+			}
 		}
 	}
 	if !found {
-		return
+		panic("zzsimrt: the goroutine advancing the clock is not a task")
 	}
 	rawWake(clockW)
 	rawPark(myR)
@@ -433,9 +441,15 @@ func spawn(f func()) {
 //go:norace
 func allocDaemon(f func()) int {
 	for i := HarnessTasks; i < MaxTasks; i++ {
-		if !tasks[i].alive {
+		if !tasks[i].alive || tasks[i].state == tsDone {
+			if i >= hiSlot {
+				hiSlot = i + 1
+			}
 			t := &tasks[i]
 			rfd, wfd := t.rfd, t.wfd
+			if rfd == 0 && wfd == 0 {
+				rfd, wfd = rawPipe()
+			}
 			*t = task{rfd: rfd, wfd: wfd, alive: true, daemon: true, state: tsRunnable, body: f}
 			t.rng = (cfg.Seed+uint64(i)+1)*0xbf58476d1ce4e5b9 | 1
 			if cfg.ColdMean != 0 {
@@ -445,7 +459,10 @@ func allocDaemon(f func()) int {
 			return i
 		}
 	}
-	panic("zzsimrt: the library started more goroutines than the simulator has slots for")
+	outcome = OutcomeStuck
+	detail = "the library started more goroutines than the simulator has slots for"
+	abort(cur())
+	return 0
 }
 
 //go:norace
@@ -470,9 +487,9 @@ func daemonLeave(i int) {
 	t := &tasks[i]
 	t.state = tsDone
 	progress++
+	// the slot stays reserved (alive, done) until the scheduling function has handed control on;
+	// it is recycled by allocDaemon, which treats "alive and done" as free
 	reschedule(t, EvDone)
-	t.g = 0
-	t.alive = false
 }
 
 // poll parks the running task until something has happened that may let its channel operation proceed.
@@ -503,7 +520,7 @@ func waiting(p unsafe.Pointer, dir int, self *task) *task {
 	if p == nil {
 		return nil
 	}
-	for i := 0; i < MaxTasks; i++ {
+	for i := 0; i < hiSlot; i++ {
 		t := &tasks[i]
 		if t != self && t.alive && t.state == tsPolling && t.waitCh == p && t.waitDir == dir && !t.meet {
 			return t
